@@ -314,6 +314,23 @@ pub fn run(rec: &mut Rec, rng: &mut Rng, thorough: bool) {
         seqs.extend(next.iter().cloned());
         frontier = next;
     }
+    // body lengths around the powers of ten (digits of Content-Length) and of two (narrow integer types), each alone and
+    // together with the optional header lines
+    rec.case("length-boundaries");
+    for n in [9usize, 10, 99, 100, 999, 1000, 9999, 10000, 32767, 32768, 65535, 65536, 99999, 100000, 131072] {
+        for (k, extra) in [vec![], vec![BOp::Encoding], vec![BOp::Type(true), BOp::Encoding, BOp::Deprecation, BOp::Allow(vec![0, 1, 2])], vec![BOp::Type(false), BOp::Encoding]].into_iter().enumerate() {
+            let mut ops = vec![BOp::Body(crate::gen::body_bytes(rng, n))];
+            if k % 2 == 0 {
+                ops.extend(extra);
+            } else {
+                let mut e = extra;
+                e.extend(ops);
+                ops = e;
+            }
+            let spec = RespSpec { v11: n % 2 == 0, code: if k == 3 { 204 } else { 200 }, ops };
+            resp_case(rec, rng, &spec, n <= 10000);
+        }
+    }
     rec.case("exhaustive");
     let mut stream_specs: Vec<RespSpec> = vec![];
     for v11 in [false, true] {
